@@ -194,8 +194,15 @@ Definition emit (a : nstate) (st' : state) (c : N) : nstate :=
 
 Definition nstep (a : nstate) (c : N) : nstate :=
   let '(m, k) := n_st a in
+  if n_slash a then
+    (* the byte after a backslash outside strings: part of the identifier, not syntax *)
+    mkN (m, k) (c :: n_out a) false false
+  else
   let st' := step (m, k) c in
   if normal_class m then
+    if c =? 92 then
+      let e := emit a (m, k) c in mkN (m, k) (n_out e) false true
+    else
     match fst st' with
     | Com =>            (* the `/` already emitted opens a comment: take it back *)
         mkN st' (match n_out a with 47 :: o => o | o => o end) true false
@@ -229,5 +236,26 @@ Definition strip_mark (x : list N) : list N :=
   if starts_with charset_mark x then skipn (length charset_mark) x
   else if starts_with bom_mark x then skipn 3 x else x.
 
+(* a block without content (`sel{}`, also after its comments were removed) says
+   nothing: drop it with its prelude, repeatedly (fuel = length) *)
+Fixpoint drop_prelude (r : list N) : list N :=      (* r is reversed output *)
+  match r with
+  | c :: r' => if (c =? 125) || (c =? 123) || (c =? 59) then r else drop_prelude r'
+  | [] => []
+  end.
+Fixpoint drop_empty_go (x : list N) (out : list N) : list N :=
+  match x with
+  | 123 :: 125 :: r => drop_empty_go r (drop_prelude out)
+  | c :: r => drop_empty_go r (c :: out)
+  | [] => rev out
+  end.
+Fixpoint drop_empty (fuel : nat) (x : list N) : list N :=
+  match fuel with
+  | O => x
+  | S n => let y := drop_empty_go x [] in
+           if Nat.eqb (length y) (length x) then x else drop_empty n y
+  end.
+
 Definition normalize (x : list N) : list N :=
-  drop_last_semi (strip0 false (rev (n_out (fold_left nstep (strip_mark x) (mkN (N0, []) [] false false))))).
+  let y := drop_last_semi (strip0 false (rev (n_out (fold_left nstep (strip_mark x) (mkN (N0, []) [] false false))))) in
+  drop_last_semi (drop_empty 8 y).
